@@ -502,6 +502,14 @@ func TypedValueToString(tv *sdcpb.TypedValue) string {
 			negative = true
 			digitsStr = digitsStr[1:] // Remove the "-" sign for processing
 		}
+		// a decimal64 has at most 18 fraction digits; anything beyond that is not a value of the type and is
+		// written in exponent form (the precision is chosen by the sender, padding it out would take its time)
+		if d.Precision > 18 {
+			if negative {
+				digitsStr = "-" + digitsStr
+			}
+			return digitsStr + "e-" + strconv.FormatUint(uint64(d.Precision), 10)
+		}
 		// Add leading zeros if necessary
 		for uint32(len(digitsStr)) <= d.Precision {
 			digitsStr = "0" + digitsStr
